@@ -8,6 +8,7 @@ import (
 	"sync"
 	"testing"
 
+	"github.com/attestantio/dirk/services/fetcher"
 	"github.com/herumi/bls-eth-go-binary/bls"
 	e2types "github.com/wealdtech/go-eth2-types/v2"
 	distributed "github.com/wealdtech/go-eth2-wallet-distributed"
@@ -37,6 +38,9 @@ type Population struct {
 	Accts     []*AcctInfo
 	byKey     map[string]*AcctInfo
 	byPath    map[string]*AcctInfo
+	// Shared: build the fetcher once per process and pre-unlock every account.
+	Shared        bool
+	sharedFetcher fetcher.Service
 }
 
 var blsOnce sync.Once
@@ -131,7 +135,7 @@ func (p *Population) ByPath(path string) *AcctInfo { return p.byPath[path] }
 // ByKey finds an account by public key.
 func (p *Population) ByKey(k []byte) *AcctInfo { return p.byKey[string(k)] }
 
-// stdPopulation is the default population: 8 accounts in Wallet 1, 4 in Wallet 2 (one of them
+// stdPopulation is the default population: 20 accounts in Wallet 1, 4 in Wallet 2 (one of them
 // with an unknown passphrase), an empty distributed Wallet 3.
 var (
 	stdPopOnce sync.Once
@@ -142,7 +146,7 @@ var (
 func StdPopulation(t *testing.T) *Population {
 	stdPopOnce.Do(func() {
 		w1 := WalletSpec{Name: "Wallet 1", Kind: "nd"}
-		for i := 0; i < 8; i++ {
+		for i := 0; i < 20; i++ {
 			w1.Accounts = append(w1.Accounts, fmt.Sprintf("Account %d", i))
 		}
 		w2 := WalletSpec{Name: "Wallet 2", Kind: "nd", LockedAccts: map[string]bool{"Sealed": true}}
@@ -153,4 +157,23 @@ func StdPopulation(t *testing.T) *Population {
 		stdPop = NewPopulation(t, "std", []WalletSpec{w1, w2, {Name: "Wallet 3", Kind: "distributed"}})
 	})
 	return stdPop
+}
+
+var (
+	bigPopOnce sync.Once
+	bigPop     *Population
+)
+
+// BigPopulation returns a process-wide population of 520 accounts in one wallet, used by the
+// large-batch checks.  Its fetcher is shared between runs so that accounts are unlocked once.
+func BigPopulation(t *testing.T) *Population {
+	bigPopOnce.Do(func() {
+		w := WalletSpec{Name: "Big", Kind: "nd"}
+		for i := 0; i < 520; i++ {
+			w.Accounts = append(w.Accounts, fmt.Sprintf("V%03d", i))
+		}
+		bigPop = NewPopulation(t, "big", []WalletSpec{w})
+		bigPop.Shared = true
+	})
+	return bigPop
 }
